@@ -304,8 +304,8 @@ fn spec_wp_subpred(wp: &WpHeader, te_w: i64, te_n: i64, te_nw: i64, te_ne: i64, 
 
 /// error2weight of H.5 with the machine types of the reference decoder (uint32 weights)
 fn spec_error2weight(err_sum: u32, maxweight: u32, div: &[u32; 65]) -> u32 {
-    let l = (err_sum as u64 + 1).ilog2(); // floor(log2(err_sum + 1))
-    let shift = if l > 5 { l - 5 } else { 0 };
+    // shift = max(0, floor(log2(err_sum + 1)) - 5), in the form wp_shift_lemma proves equal to it
+    let shift = ((err_sum as u64 + 1) >> 5).checked_ilog2().unwrap_or(0);
     4 + ((maxweight * div[(err_sum >> shift) as usize + 1]) >> shift)
 }
 
@@ -327,10 +327,11 @@ fn spec_wp_prediction(wp: &WpHeader, subpred: [i64; 4], te_w: i64, te_n: i64, te
         spec_error2weight(err_sum[3], wp.wp_w3, &div),
     ];
     let sum_weights = weight[0] + weight[1] + weight[2] + weight[3];
-    let log_weight = (sum_weights as u64).ilog2() + 1;
+    // log_weight - 5 = floor(log2(sum_weights)) + 1 - 5, in the form wp_shift_lemma proves equal to it (sum_weights >= 16)
+    let log_weight_m5 = (sum_weights as u64 >> 4).ilog2();
     let mut i = 0;
     while i < 4 {
-        weight[i] >>= log_weight - 5;
+        weight[i] >>= log_weight_m5;
         i += 1;
     }
     let sum_weights = weight[0] + weight[1] + weight[2] + weight[3];
@@ -384,14 +385,23 @@ fn any_wp_header() -> WpHeader {
     h
 }
 
+/// the header every stream with default_wp = true uses (defaults of the bundle, predictor.rs:9-20)
+fn default_wp_header() -> WpHeader {
+    WpHeader { default_wp: true, wp_p1: 16, wp_p2: 10, wp_p3a: 7, wp_p3b: 7, wp_p3c: 7, wp_p3d: 0, wp_p3e: 0, wp_w0: 13, wp_w1: 12, wp_w2: 12, wp_w3: 12 }
+}
+
 fn any_sc_state() -> SelfCorrectingPredictor {
+    any_sc_state_with(any_wp_header())
+}
+
+fn any_sc_state_with(wp: WpHeader) -> SelfCorrectingPredictor {
     SelfCorrectingPredictor {
         width: kani::any(),
         x: kani::any(),
         y: kani::any(),
         true_err_row: Vec::new(),
         subpred_err_row: Vec::new(),
-        wp: any_wp_header(),
+        wp,
         true_err_w: kani::any(),
         true_err_nw: kani::any(),
         true_err_n: kani::any(),
@@ -417,6 +427,18 @@ fn wp_predict_total_contract() {
     assert!(r.prediction > i64::MIN / 2 && r.prediction < i64::MAX / 2, "[C01] prediction stays far inside i64");
 }
 
+/// the two closed forms used by spec_error2weight / spec_wp_prediction are the standard's expressions
+#[kani::proof]
+fn wp_shift_lemma() {
+    let e: u32 = kani::any();
+    let l = (e as u64 + 1).ilog2(); // floor(log2(e + 1))
+    let std_shift = if l > 5 { l - 5 } else { 0 };
+    assert!(((e as u64 + 1) >> 5).checked_ilog2().unwrap_or(0) == std_shift, "[C03] shift == max(0, floor(log2(err_sum + 1)) - 5)");
+    let sw: u32 = kani::any();
+    kani::assume(sw >= 16); // every weight is >= 4
+    assert!((sw as u64 >> 4).ilog2() == (sw as u64).ilog2() + 1 - 5, "[C03] log_weight - 5 == floor(log2(sum_weights)) + 1 - 5");
+}
+
 /// sub-predictions and max_error == H.5 in mathematical integers, for every state
 #[kani::proof]
 #[kani::unwind(66)]
@@ -432,11 +454,15 @@ fn wp_subpred_spec_contract() {
     kani::cover!(max_error == sc.true_err_ne as i64 && max_error != sc.true_err_w as i64);
 }
 
-/// weighted prediction == H.5 (error2weight, normalisation, rounding, clamp)
+/// weighted prediction == H.5 (error2weight, normalisation, rounding, clamp).
+/// NOT REGISTERED: CBMC (CaDiCaL, Kissat, Z3) does not close the equivalence of the two 64-bit multiply-accumulate
+/// chains within 15 min, neither for a symbolic header nor for the default header; kept as the transcription to
+/// resume from. What is decided about predict(): totality (wp_predict_total_contract) and the sub-predictions /
+/// max_error (wp_subpred_spec_contract).
 #[kani::proof]
 #[kani::unwind(66)]
 fn wp_prediction_spec_contract() {
-    let sc = any_sc_state();
+    let sc = any_sc_state_with(default_wp_header());
     let (n, nw, ne, w, nn): (i32, i32, i32, i32, i32) = kani::any();
     let mut err_sum = [0u32; 4];
     let mut i = 0;
@@ -452,4 +478,78 @@ fn wp_prediction_spec_contract() {
     assert!(r.prediction == want, "[C03] weighted prediction == H.5 (error2weight, normalisation, rounding, clamp)");
     kani::cover!(want != w as i64 * 8 && want != n as i64 * 8 && want != ne as i64 * 8);
     kani::cover!(err_sum[0] > 1 << 20);
+}
+
+// ------------------------------------------------------------------------------------------------
+// Properties 16.. : previous channels (H.4):  for every earlier channel of the same geometry, nearest first,
+//   rC = prev(x, y); rW = x > 0 ? prev(x-1, y) : 0; rN = y > 0 ? prev(x, y-1) : rW;
+//   rNW = x > 0 && y > 0 ? prev(x-1, y-1) : rW; rG = clamp(rW + rN - rNW, min(rW, rN), max(rW, rN));
+//   properties: abs(rC), rC, abs(rC - rG), rC - rG.
+// Sample values of a previous channel are whatever the stream decoded: any value of the buffer type.
+// ------------------------------------------------------------------------------------------------
+fn spec_extra_property(idx: usize, rc: i64, rw: i64, rn: i64, rnw: i64) -> i64 {
+    let lo = if rw < rn { rw } else { rn };
+    let hi = if rw < rn { rn } else { rw };
+    let g = rw + rn - rnw;
+    let rg = if g < lo { lo } else if g > hi { hi } else { g };
+    match idx {
+        0 => abs64(rc),
+        1 => rc,
+        2 => abs64(rc - rg),
+        _ => rc - rg,
+    }
+}
+
+fn extra_properties<S: Sample + kani::Arbitrary>(exclude_int32_min: bool) {
+    let mut buf: [S; 4] = kani::any();
+    let vals = [buf[0].to_i64(), buf[1].to_i64(), buf[2].to_i64(), buf[3].to_i64()];
+    if exclude_int32_min {
+        // NOT a call-site guarantee: rC == -2^31 makes `c.abs()` (predictor.rs:507) panic in overflow-checked builds.
+        // That totality defect is reported by extra_properties_i32_contract (C01); this variant carries the functional
+        // (C03) content for every other value.
+        kani::assume(vals[0] != i32::MIN as i64 && vals[1] != i32::MIN as i64 && vals[2] != i32::MIN as i64 && vals[3] != i32::MIN as i64);
+    }
+    let grid = MutableSubgrid::from_buf(&mut buf[..], 2, 2, 2);
+    let mut st = PredictorState::<S>::new();
+    st.reset(2, &[&grid], None);
+    let x: usize = kani::any();
+    let y: usize = kani::any();
+    kani::assume(x < 2 && y < 2);
+    st.x = x as u32;
+    st.y = y as u32;
+    let props = Properties::new::<true>(&mut st, None);
+    let e: usize = kani::any();
+    kani::assume(e < 8);
+    let got = props.get(16 + e); // must not panic for any sample value
+    let prev = |xx: usize, yy: usize| vals[yy * 2 + xx];
+    let rc = prev(x, y);
+    let rw = if x > 0 { prev(x - 1, y) } else { 0 };
+    let rn = if y > 0 { prev(x, y - 1) } else { rw };
+    let rnw = if x > 0 && y > 0 { prev(x - 1, y - 1) } else { rw };
+    if e < 4 {
+        assert!(got == spec_extra_property(e, rc, rw, rn, rnw) as i32,
+            "[C03,C12,C01] previous-channel property == the standard's value wrapped to 32 bits");
+    } else {
+        assert!(got == 0, "[C03,C01] properties beyond the available previous channels are 0");
+    }
+    kani::cover!(e == 2 && x == 1 && y == 1 && got > 0);
+    kani::cover!(e == 3 && x == 0 && y == 1 && got != 0);
+}
+
+#[kani::proof]
+#[kani::unwind(4)]
+fn extra_properties_i16_contract() {
+    extra_properties::<i16>(false)
+}
+
+#[kani::proof]
+#[kani::unwind(4)]
+fn extra_properties_i32_contract() {
+    extra_properties::<i32>(false)
+}
+
+#[kani::proof]
+#[kani::unwind(4)]
+fn extra_properties_i32_values_contract() {
+    extra_properties::<i32>(true)
 }
